@@ -27,6 +27,9 @@ UNITS = [
     flow.Unit('guderley', groups=['guderley'], props=['props/C17_guderley.v'], custom_corr=GDC.unit_corr, oracle=oracle_of('guderley'),
               note='Guderley: the coded reflected-shock jump is compressive and leaves the flow subsonic relative to the shock whenever the state ahead is supersonic '
                    'relative to it; converging shock compresses by (gamma+1)/(gamma-1) (theorems on the regenerated jump / start values)'),
+    flow.Unit('sedov', groups=['sedov'], props=['props/C17_sedov.v'], custom_corr=__import__('sedov_corr').unit_corr, oracle=oracle_of('sedov'),
+              note='Sedov blast front: post-shock density = (gamma+1)/(gamma-1) x ambient profile at the coded shock radius (compressive for every omega, t), '
+                   'front and gas move outward, post-shock pressure positive (theorem on the regenerated constructor constants of _run)'),
     flow.Unit('real-code', groups=[], props=[], oracle=oracle_of('noh', 'sedov', 'guderley', 'riemann', 'ehep', 'mader', 'sdrz', 'piston', 'suolson'),
               always_oracle=True,
               note='signs, compressive shocks, monotone fans and between-ness along fine point sequences on the REAL solvers: Noh, Sedov (standard, singular, '
